@@ -72,6 +72,9 @@ def run(ctx):
     with Pool(16) as pool:
         obs = pool.map(O.Safe(_observe), jobs, chunksize=1)
     obs, jobs = O.split_raised(ctx, 'C08', obs, jobs, 'harness.props.C08._observe')
+    if len(obs) < 6:        # (nearly) every observation raised: the violations are recorded, there is no table left to judge
+        ctx.exhaustive = False
+        return
     ctx.extra['max_residual'] = max(o['maxres'] for o in obs)
     recs = [{k: v for k, v in o.items() if k not in ('maxres', 'grid')} for o in obs]
     verdict = O.run_laws(ctx, 'InverseLaws', 'InverseLaws', recs)
